@@ -563,11 +563,17 @@ LAYOUTS = {                       # name: (ro given, rw given, rw exists before 
     'ro_rw': (True, True, True),
     'ro_rw_new': (True, True, False),
 }
+# a configured read-only directory that does not exist (yet): it must not be created either (insert.writes only)
+RO_MISSING_LAYOUTS = {'ro_missing': (True, False, False), 'ro_missing_rw': (True, True, True), 'ro_missing_rw_new': (True, True, False)}
 
 
 def make_dirs(c, w, layout):
-    has_ro, has_rw, rw_exists = LAYOUTS[layout]
-    ro = w.mkdir('ro') if has_ro else None
+    if layout in RO_MISSING_LAYOUTS:
+        has_ro, has_rw, rw_exists = RO_MISSING_LAYOUTS[layout]
+        ro = w.dirpath('ro')
+    else:
+        has_ro, has_rw, rw_exists = LAYOUTS[layout]
+        ro = w.mkdir('ro') if has_ro else None
     rw = (w.mkdir('rw') if rw_exists else w.dirpath('rw')) if has_rw else None
     c.let('ro', ro)
     c.let('rw', rw)
@@ -714,7 +720,7 @@ def _writes(layout):
         w = World(c)
         ro, rw, rw_exists = make_dirs(c, w, layout)
         crc = c.int('crc', 0, 2 ** 32 - 1)
-        if ro:
+        if ro and layout not in RO_MISSING_LAYOUTS:
             fa = fields(c, 'a', 'log')
             w.put_file(ro, c.int('crc_a', 0, 2 ** 32 - 1), [(dict(fa)['group'], [(dict(fa)['name'], entry('log', fa))])])
         if rw and rw_exists and c.choice('old_file_in_rw', [False, True]):
@@ -748,7 +754,7 @@ def _writes(layout):
     return k
 
 
-for _l in LAYOUTS:
+for _l in list(LAYOUTS) + list(RO_MISSING_LAYOUTS):
     _writes(_l)
 
 
